@@ -69,7 +69,9 @@ fn main() {
             }
         }
         "corpus" => {
-            let bodies = corpus::quick_bodies();
+            let mut bodies = corpus::quick_bodies();
+            bodies.push(vec![corpus::Stmt::Raise(10), corpus::Stmt::CallF, corpus::Stmt::Raise(14)]);
+            bodies.push(vec![corpus::Stmt::RaiseBurst, corpus::Stmt::Assign]);
             match corpus::build_many(&bodies, &[corpus::Config::default_cfg()]) {
                 Ok(bs) => {
                     for b in bs {
@@ -115,6 +117,11 @@ fn run_check(id: &str, tier: Tier) -> i32 {
         "C07" => {
             let mut r = Report::new("C07", tier, "exploration");
             r.parts.push(c07::part_parse(tier));
+            finish(r)
+        }
+        "C10" => {
+            let mut r = Report::new("C10", tier, "model_checking");
+            r.parts.push(c01::part_c10(tier));
             finish(r)
         }
         "C12" => {
